@@ -295,5 +295,7 @@ def run (ctx):
       ctx.bad('R-DEF', f, "undefined name `%s`" % nm, "NameError on this path", (f.module, node), 'D5')
     for nm, node, path in defs.use_before_def(f):
       ctx.bad('R-DEF', f, "local `%s` used before assignment" % nm, "feasible path %s" % path, (f.module, node), 'D5')
+  from . import c09 as c09s_
+  c09s_.connection_str_total(ctx, repo, 'D5')
   # ---- mechanisms this property shares with others: their checks' rules about these functions are obligations here too
   ctx.include('C09', ['Connection.disconnect', 'Connection.close'], "closing after a fatal send error is the connection's disconnect state machine")
